@@ -6,7 +6,12 @@ depth) against the extracted models AND against the specification (abstract posi
 the abstract bbolt cursor of Cursor/BoltCursor.v against real bbolt on random op sequences.
 Re-opened cursors (Cursor/Reuse.v, harness c14_reuse.go): ONE runtime set symbol used for consecutive rows (R
 lines: any state left by the previous row x row with elements / empty bucket / no bucket / no entity) and whole
-scans (S lines: QueryIds / IterateIds with isEmpty, anyOf, allOf, count filters through the cached symbol)."""
+scans (S lines: QueryIds / IterateIds with isEmpty, anyOf, allOf, count filters through the cached symbol).
+Scanners layered over cursors (Cursor/Scanner.v, harness c14_scan.go, I lines): the seekable id cursors of IterateIds /
+IterateValidIds (uniqueIndexScanner reading one element ahead, ValidIdsCursors on top for extended stores) of root, child and
+extended child stores with constant and selective filters, every Next/Seek program of the other families plus seeks from every
+position (last element, exhausted) on stores of 0..5 entities; paged filters (Next only: the page); QueryWithCursorC over
+bolt / typed / filtered / tree providers in both directions."""
 import json
 import os
 import subprocess
@@ -14,7 +19,7 @@ import subprocess
 import vlib
 
 PID = "C14"
-FILES = ["theories/Properties/C14.v", "theories/Examples/C14Examples.v"]
+FILES = ["theories/Properties/C14.v", "theories/Examples/C14Examples.v", "theories/Examples/C14Scanner.v"]
 
 TREE_KINDS = ("tree", "treecursor", "uniontree", "anyof")
 
@@ -91,6 +96,25 @@ def parse_case(line):
         else:
             elems = [i for i, r in ents if any(v in r for v in vals)]
         return dict(kind=which, fw=fw, elems=sorted(elems), ops=ops, size=nent + len(vals), inputs=[i for i, _ in ents])
+    if head == "I":
+        kind = tk.next()
+        fw = tk.next() == "1"
+        flt = tk.next()
+        skip, limit = tk.next(), tk.next()
+        p, cset, f = tk.set(), tk.set(), tk.set()
+        ops = tk.ops()
+        base = kind[:-1] if kind.endswith("0") else kind
+        universe = [] if kind.endswith("0") else p
+        child = base in ("cids", "cvids", "xvids", "qcc")
+        accepted = sorted(x for x in universe if (not child or x in cset) and x in f)
+        listed = accepted if fw else list(reversed(accepted))
+        if skip != "-":
+            listed = listed[int(skip):]
+        if limit != "-":
+            listed = listed[:int(limit)]
+        return dict(head="I", kind=kind, base=base, fw=fw, flt=flt, skip=skip, limit=limit, p=p, c=cset, f=f, child=child,
+                    elems=listed, total=len(accepted), ops=ops, size=len(p), inputs=p,
+                    paged=(skip != "-" or limit != "-"), query=kind.startswith("q"))
     if head == "R":
         kind = tk.next()
         segs = []
@@ -181,6 +205,14 @@ def oracle(pc):
         for k, sg in enumerate(pc["segs"]):
             out += (["/"] if k else []) + oracle_trace(sg["elems"], True, sg["ops"])
         return out
+    if pc.get("head") == "I":
+        if pc["query"]:
+            # QueryWithCursorC: the page in the direction of the scan, then the number of matches
+            t = oracle_trace(pc["elems"], True, pc["ops"])
+            return t + ["#%d" % pc["total"]]
+        if pc["paged"] and any(o != "N" for o in pc["ops"]):
+            return ["~"]      # a paged cursor that is sought: no set the property speaks about (model only)
+        return oracle_trace(pc["elems"], True, pc["ops"])
     if pc.get("head") == "S":
         ids = [r[0] for r in pc["rows"] if filter_holds(pc["filter"], 0, r[2])[0]]
         return [str(len(ids))] + [i.hex() or "-" for i in sorted(ids)]
@@ -223,6 +255,17 @@ def classify(pc, impl_t, spec_t):
             if ti.startswith("V") and ts in ("I", "/", "?"):
                 return "C14:%s-reopen-stale" % kind, j
             return "C14:%s-reopen" % kind, j
+    if pc.get("head") == "I":
+        if ti == "P":
+            return "C14:%s-panic" % kind, j
+        if ti == "E":
+            return "C14:%s-error" % kind, j
+        if ti.startswith("#") or ts.startswith("#"):
+            return "C14:%s-count" % kind, j
+        if ti == "X":
+            return "C14:%s-not-seekable" % kind, j
+        seeks = any(o != "N" for o in pc["ops"][:j])
+        return "C14:%s-%s" % (kind, "seek" if seeks else ("page" if pc["paged"] else "enumerate")), j
     if ti == "P":
         if kind in TREE_KINDS:
             return ("C14:tree-empty-panic" if j == 0 else "C14:tree-next-exhausted-panic"), j
@@ -250,11 +293,13 @@ def main(argv):
     c = vlib.Check(PID, argv)
     c.cov["trusted_base"] = [
         "Coq 8.16.1 kernel (coqc; coqchk in the thorough tier); vm_compute in Examples only; no axioms",
-        "hand-written models Cursor/{BoltCursor,Typed,Filtered,Union,Tree,SetSym,Cases,Reuse}.v of boltz/query_bolt_cursors.go, ast/cursors.go and the hand-out sites",
+        "hand-written models Cursor/{BoltCursor,Typed,Filtered,Union,Tree,SetSym,Cases,Reuse,Scanner}.v of boltz/query_bolt_cursors.go, ast/cursors.go, boltz/query_scanners.go (uniqueIndexScanner), boltz/store_query.go (IterateIds, IterateValidIds, ValidIdsCursors) and the hand-out sites",
         "Cursor/BoltCursor.v as a description of bbolt 1.4.0 cursors (compared with real bbolt on every run: case kind B)",
         "llrb.Tree as an ordered set (replace on equal, in-order Left/Right links); its balancing is not modelled",
         "extraction (ExtrOcamlBasic only) + extraction/c14_driver.ml + drv_common.ml",
-        "Go harness cmd/storageharness/c14.go, c14_reuse.go (stores, generators) and this comparison / oracle",
+        "Go harness cmd/storageharness/c14.go, c14_reuse.go, c14_scan.go (stores, generators) and this comparison / oracle",
+        "filters of the scanner cases: the set of ids a filter accepts is what the harness wrote (role r<mask> on the ids of mask); evaluation of filters is C01's subject",
+        "uniqueIndexScanner.targetLimit = math.MaxInt64 (no limit) is modelled as 'never reached'; a paged scanner cursor that is SOUGHT is compared with the model only (design/C14.md section 9)",
         "composite set symbols (stackedCursor): no C14 model, implementation compared with the specification (concatenation computed by the harness) only",
     ]
     c.assumptions = [
@@ -300,6 +345,7 @@ def main(argv):
     prop_viol = []       # (sortkey, key, case, impl, model, spec, j)
     corr = []            # model != impl although impl == spec, or model != spec
     bolt_bad = []
+    paged_bad = []
     spec_bad = []
     samples = []
     per_kind = {}
@@ -322,6 +368,16 @@ def main(argv):
             mo, _, sp = modl.partition(" | ")
             impl_t, mo_t, sp_t = impl.split(), mo.split(), sp.split()
             pc = None
+            if sp == "~":
+                # paged scanner cursor with Seek operations: the transcription of the code is the only reference
+                per_kind["paged-seek"] = per_kind.get("paged-seek", 0) + 1
+                if impl_t != mo_t:
+                    paged_bad.append((len(case), case, impl, mo))
+                    if oracle(parse_case(case)) != ["~"]:
+                        spec_bad.append((case, " ".join(oracle(parse_case(case))), sp))
+                elif "V" in impl:
+                    nontrivial.add(hash(case))
+                continue
             if impl_t != sp_t or (mo_t != sp_t and mo != "-") or n_cases % oracle_every == 0:
                 pc = parse_case(case)
                 per_kind[pc["kind"]] = per_kind.get(pc["kind"], 0)
@@ -362,6 +418,26 @@ def main(argv):
                     "shows %s: OpenCursor does not reset what the previous row left. Whole trace %s, demanded %s" % (
                         pc["kind"], rows, seg + 1, pc["segs"][min(seg, len(pc["segs"]) - 1)]["id"].decode("latin-1"),
                         impl.split()[j] if j < len(impl.split()) else "?", sp.split()[j] if j < len(sp.split()) else "?", impl, sp))
+        elif pc.get("head") == "I":
+            fl = {"T": "ast.BoolNodeTrue", "R": "`anyOf(roles) = ..` accepting %s" % dec(pc["f"]),
+                  "N": "`not (anyOf(roles) = ..)` accepting %s" % dec(pc["f"])}.get(pc["flt"], pc["flt"])
+            pg = "".join([" skip %s" % pc["skip"] if pc["skip"] != "-" else "", " limit %s" % pc["limit"] if pc["limit"] != "-" else ""])
+            site = {"ids": "IterateIds of a root store", "vids": "IterateValidIds of a root store",
+                    "cids": "IterateIds of a child store", "cvids": "IterateValidIds of a child store",
+                    "xids": "IterateIds of an Extended() child store", "xvids": "IterateValidIds of an Extended() child store",
+                    "qc": "QueryWithCursorC(entities bucket cursor) on a root store", "qcc": "QueryWithCursorC(entities bucket cursor) on a child store",
+                    "qcx": "QueryWithCursorC(entities bucket cursor) on an Extended() child store",
+                    "qci": "QueryWithCursorC(set index value cursor)", "qca": "QueryWithCursorC(IteratorMatchingAllOf)",
+                    "qct": "QueryWithCursorC(IteratorMatchingAnyOf)"}.get(pc["base"], pc["base"])
+            if pc["kind"].endswith("0"):
+                site += " whose entities bucket does not exist"
+            what = ("%s%s: entities %s%s, filter %s%s; the cursor is the %s cursor over the set %s (the scanner reads one element ahead of what it "
+                    "shows); ops %s: observation #%d is %s, the property demands %s. Whole trace %s, demanded %s" % (
+                        site, "" if pc["fw"] else " (sort by id desc)", dec(pc["p"]),
+                        ", child data for %s" % dec(pc["c"]) if pc["child"] or pc["base"] == "xids" else "", fl, pg,
+                        "query result read as a" if pc["query"] else "seekable", dec(pc["elems"]),
+                        " ".join(pc["ops"]) or "(none)", j, impl.split()[j] if j < len(impl.split()) else "?",
+                        sp.split()[j] if j < len(sp.split()) else "?", impl, sp))
         elif pc.get("head") == "S":
             rows = ", ".join("%s:%s" % (r[0].decode("latin-1"), {0: "absent", 2: "no bucket"}.get(r[1], dec(r[2]))) for r in pc["rows"])
             got = {"H": "did not return within 10 s (the set cursor of a row never exhausts)", "P": "panicked", "E": "failed"}.get(
@@ -385,7 +461,7 @@ def main(argv):
 
     c.cov["evaluations"] = n_cases
     c.cov["distinct_nontrivial"] = len(nontrivial)
-    c.cov["disagreements_checked"] = len(prop_viol) + len(corr) + len(bolt_bad)
+    c.cov["disagreements_checked"] = len(prop_viol) + len(corr) + len(bolt_bad) + len(paged_bad)
     c.cov["rule"] = ("bounded-exhaustive: every subset of {'', a, ab, b, 0xff} (typed element sets) resp. {0x01, a, ab, b, 0xff} (raw keys, ids) "
                      "x every cursor kind / hand-out site x direction x every sequence of exactly d operations over {Next, Seek t} "
                      "(t in 9 targets: present, absent, before first, after last, prefix), d = 3 (4 thorough; 5 over 6 targets) for the base adapters and the "
@@ -395,6 +471,12 @@ def main(argv):
                      "no entity) with Next Next / Seek Next, then on a third row; the composite symbols grps.items, grps.items.tags over all row triples; "
                      "scans (QueryIds, IterateIds) of all worlds of 3 (4) entities x {no bucket, empty, {a}, {b}, {a,b}} x 14-17 filters built from "
                      "isEmpty / anyOf = / anyOf != / allOf = / count / isEmpty(from .. where true) with not/and/or, every query under a 10 s limit; "
+                     "SCANNERS LAYERED OVER CURSORS: IterateIds / IterateValidIds of a root store, a child store and an Extended() child store (and of stores "
+                     "without an entities bucket) over every pair (entities P, entities with child data C) of subsets of the id universe, filter ast.BoolNodeTrue "
+                     "and parsed selective filters accepting every subset of P (child stores: 3 masks), driven by every op sequence of depth 1 and 3 (4) [filter "
+                     "true] / 2 (3) [selective, child stores] AND by the walks Next^k Seek t Next for every k = 0 .. |P|+1 and every target (a seek from every "
+                     "position, the last element and exhaustion included); filters with skip/limit (11 pagings) Next-only against the page, with Seek against "
+                     "the model only; QueryWithCursorC over the entities bucket cursor / set index value cursor / AllOf / AnyOf iterators, both directions, all pagings; "
                      "AllOf/AnyOf iterators over seeded random role assignments x all value lists of length <= 3; B: seeded random First/Last/Next/Prev/Seek "
                      "sequences on real bbolt buckets (all 32 subsets, one multi-page bucket, read-only and writable transactions). "
                      "Observed after the constructor and after every op: IsValid / Current. Non-trivial: the specification trace contains at least one valid "
@@ -413,6 +495,13 @@ def main(argv):
                     % (len(bolt_bad), case[:300], impl[:200], modl[:200]),
                     dict(correspondence="Cursor/BoltCursor.v vs go.etcd.io/bbolt Cursor", theorems=["bolt_refines_position", "typed_refines_position"],
                          case=case, impl=impl, model=modl), no_input=True)
+    if paged_bad:
+        paged_bad.sort()
+        _, case, impl, mo = paged_bad[0]
+        c.violation("C14:paged-seek-model", "paged scanner cursors (filter with skip/limit) driven with Seek: implementation and the model of "
+                    "uniqueIndexScanner (Cursor/Scanner.v) differ on %d programs, e.g. %s: impl %s model %s" % (len(paged_bad), case, impl, mo),
+                    dict(correspondence="Cursor/Scanner.v sc_next / sc_seek with paging vs boltz uniqueIndexScanner", case=case, impl=impl, model=mo),
+                    no_input=True)
     if spec_bad:
         case, orc, sp = spec_bad[0]
         c.violation("C14:spec-extraction", "extracted specification and the check's own oracle differ on %d cases, e.g. %s: oracle %s spec %s"
